@@ -59,7 +59,8 @@ def k7flush (t : Tokens) : String :=
   -- request ids: 0 victim, 1 f1, (2 f2), then idle, own, other
   let k := if chained then 3 else 2
   let gated := quiesce (fun a i => i == 0 && (a == .leave || a == .enter)) 400 s2
-  let early := (([0, 1] ++ (if chained then [2] else [])).map (framesOf gated)).sum
+  -- (the chained flush, request 2, names a Tflush: it may or may not have to wait – not counted)
+  let early := ([0, 1].map (framesOf gated)).sum
   let idle := framesOf gated k
   let own := framesOf gated (k + 1)
   let other := framesOf gated (k + 2)
